@@ -99,7 +99,15 @@ func c06One(c *mc.Ctx, k c06Case) (encoded bool) {
 			var sink *EnvWriter
 			pre := 0
 			if k.Writer == "bytes" {
-				target = append(make([]byte, 0, 64), initial...)
+				// initial slice shapes: spare room, no spare room, room for exactly the 14-byte meta block
+				switch (int(k.Flags) + k.Payload + len(p.StrInfo)) % 3 {
+				case 0:
+					target = append(make([]byte, 0, 64), initial...)
+				case 1:
+					target = append(make([]byte, 0, len(initial)), initial...)
+				default:
+					target = append(make([]byte, 0, len(initial)+14), initial...)
+				}
 				pre = len(initial)
 				w = bufiox.NewBytesWriter(&target)
 			} else {
@@ -196,11 +204,13 @@ func c06One(c *mc.Ctx, k c06Case) (encoded bool) {
 			return // layout conformance only; decode is specified for supported protocol ids
 		}
 		// decode
+		// the reader carries TWO copies of the frame+payload back to back (a connection with pipelined messages)
+		twice := append(append(make([]byte, 0, 2*len(all)), all...), all...)
 		var r bufiox.Reader
 		if k.Stream {
-			r = bufiox.NewDefaultReader(NewEnvReader(all, k.Env))
+			r = bufiox.NewDefaultReader(NewEnvReader(twice, k.Env))
 		} else {
-			r = bufiox.NewBytesReader(all)
+			r = bufiox.NewBytesReader(twice)
 		}
 		d, err := ttheader.Decode(ctx, r)
 		if err != nil {
@@ -237,6 +247,19 @@ func c06One(c *mc.Ctx, k c06Case) (encoded bool) {
 				return
 			}
 		}
+		// second message on the same reader: skip the rest of the payload, release, decode again
+		if rest := len(payload) - min(len(payload), 64); rest > 0 {
+			if err := r.Skip(rest); err != nil {
+				bad("payload-bytes", "skipping the rest of the payload failed: %v", err)
+				return
+			}
+		}
+		r.Release(nil)
+		dB, errB := ttheader.Decode(ctx, r)
+		if errB != nil || dB.HeaderLen != len(frame) || dB.PayloadLen != len(payload) || r.ReadLen() != len(frame) || !mapsEqStr(dB.StrInfo, p.StrInfo) || !mapsEqInt(dB.IntInfo, p.IntInfo) || uint16(dB.Flags) != k.Flags || dB.SeqID != k.Seq {
+			bad("second-message-on-reader", "decoding the second, identical frame from the same reader after Release: err=%v HeaderLen=%d PayloadLen=%d ReadLen=%d (want %d/%d/%d)", errB, dB.HeaderLen, dB.PayloadLen, r.ReadLen(), len(frame), len(payload), len(frame))
+			return
+		}
 		var d2 ttheader.DecodeParam
 		var err2 error
 		if !k.Stream {
@@ -247,6 +270,9 @@ func c06One(c *mc.Ctx, k c06Case) (encoded bool) {
 		mcache.VerifCoTenant(true)
 		for i := range all {
 			all[i] = 0xEE
+		}
+		for i := range twice {
+			twice[i] = 0xEE
 		}
 		if !mapsEqStr(d.StrInfo, p.StrInfo) || !mapsEqInt(d.IntInfo, p.IntInfo) {
 			bad("maps-alias-buffer", "the decoded maps changed after the reader was released / the input buffer was reused: they alias the read buffer")
